@@ -151,6 +151,36 @@ func init() {
 						}
 					}
 				}
+			case 'Q', 'U':
+				// a client that floods its session channel with requests nobody has to answer and then goes away:
+				// Q = a shell request followed by 24 more shell requests, U = 25 requests of a type the server does not
+				// serve ("window-change": the server ends the connection at the first one)
+				ok = false
+				if c := conns[i]; c != nil && c.client != nil {
+					if ch, reqs, err := c.client.OpenChannel("session", nil); err == nil {
+						go gossh.DiscardRequests(reqs)
+						typ := "shell"
+						if op[0] == 'U' {
+							typ = "window-change"
+						}
+						if op[0] == 'Q' {
+							if accepted, err := ch.SendRequest("shell", true, nil); err == nil && accepted {
+								ok = true
+							}
+						} else {
+							ok = true
+						}
+						for k := 0; k < 24; k++ {
+							ch.SendRequest(typ, false, nil)
+						}
+					}
+					c.client.Close()
+					c.client = nil
+					if c.tcp != nil {
+						c.tcp.Close()
+						c.tcp = nil
+					}
+				}
 			case 'X':
 				if c := conns[i]; c != nil {
 					if c.client != nil {
